@@ -100,9 +100,9 @@ PROPS = {
         assumptions=["SASL mechanisms other than EXTERNAL (GSSAPI, NTLM) are not compiled in and not modelled"],
     ),
     "C19": dict(
-        groups=[("ctl", 3200, 200000), ("respctl", 800, 60000)],
+        groups=[("ctl", 3200, 200000), ("respctl", 800, 60000), ("req", 400, 30000)],
         gen=["consts"],
-        exact_lanes=["ctl", "exop", "cresp", "frame"],
+        exact_lanes=["ctl", "exop", "cresp", "frame", "req"],
         rule="every request control / extended request struct with boundary sizes, cookies of 0..300 and 70000 bytes, optional fields on/off, attribute lists, filters; "
              "every response value kind (PagedResults, SyncState, SyncDone, the four SyncInfo alternatives with defaulted flags, Pre/PostRead entry, WhoAmI, PasswordModify, StartTxn) "
              "spec-encoded with random legal length forms; a few malformed values. non-trivial = distinct case that did not panic",
